@@ -20,7 +20,13 @@ import (
 	"time"
 )
 
-const VerifRoot = "/verif"
+// VerifRoot is /verif, or the snapshot the run script lives in (VERIF_ROOT).
+var VerifRoot = func() string {
+	if r := os.Getenv("VERIF_ROOT"); r != "" {
+		return r
+	}
+	return "/verif"
+}()
 
 // Failure is one violated case.
 type Failure struct {
